@@ -498,6 +498,18 @@ def sftp_hostile_worker(job):
         muts += [('byte%d=%02x' % (i, r), frame(g[:i] + bytes([r]) + g[i + 1:])) for i in range(len(g)) for r in (0, 1, 0x7f, 0xff) if g[i] != r and not 1 <= i <= 4]
         muts += [('trailing', frame(g + b'\0')), ('len-short', (len(g) - 1).to_bytes(4, 'big') + g), ('len-zero', b'\0\0\0\0' + g),
                  ('len-huge', b'\xff\xff\xff\xff' + g), ('len-long', (len(g) + 3).to_bytes(4, 'big') + g)]
+        # well-framed replies of every type with the smallest and with unexpected contents (a NAME reply naming
+        # nothing or two things, an empty DATA, STATUS OK/EOF where data was asked for, ...)
+        rid = g[1:5]
+        u32b = lambda n: n.to_bytes(4, 'big')
+        sb = lambda b: u32b(len(b)) + b
+        nm = sb(b'n') + sb(b'n') + u32b(0)
+        muts += [('alt-name-0', frame(bytes([104]) + rid + u32b(0))), ('alt-name-2', frame(bytes([104]) + rid + u32b(2) + nm + nm)),
+                 ('alt-name-1', frame(bytes([104]) + rid + u32b(1) + nm)),
+                 ('alt-status-ok', frame(bytes([101]) + rid + u32b(0) + sb(b'') + sb(b''))), ('alt-status-eof', frame(bytes([101]) + rid + u32b(1) + sb(b'') + sb(b''))),
+                 ('alt-status-bare', frame(bytes([101]) + rid + u32b(4))), ('alt-handle-empty', frame(bytes([102]) + rid + sb(b''))),
+                 ('alt-data-empty', frame(bytes([103]) + rid + sb(b''))), ('alt-attrs-empty', frame(bytes([105]) + rid + u32b(0))),
+                 ('alt-extended-reply-empty', frame(bytes([201]) + rid))]
         for label, raw in muts:
             res = run(lambda p, raw=raw: raw, misframed=label.startswith('len-'))
             acc.add(core.digest(('sftp-hostile', name, label, res['out'])), transitions=2,
@@ -509,6 +521,111 @@ def sftp_hostile_worker(job):
     return acc
 
 
+def nesting_worker(_job):
+    """DER values nested 10 .. 50000 deep (SEQUENCE, SET, context tags; definite lengths) given to der_decode and to
+    the key / certificate importers, raw and PEM-armoured: a value or the documented error -- the depth of the
+    input must not become the depth of the interpreter's stack"""
+    import base64
+    acc = core.Acc()
+
+    def der_len(n):
+        if n < 128:
+            return bytes([n])
+        b = n.to_bytes((n.bit_length() + 7) // 8, 'big')
+        return bytes([0x80 | len(b)]) + b
+
+    def nest(tag, depth, inner=b'\x02\x01\x05'):
+        d = inner
+        for _ in range(depth):
+            d = bytes([tag]) + der_len(len(d)) + d
+        return d
+    KI = (KeyImportError, KeyEncryptionError)
+    targets = [('der_decode', asn1.der_decode, (asn1.ASN1DecodeError,)), ('import_private_key', asyncssh.import_private_key, KI),
+               ('import_public_key', asyncssh.import_public_key, KI), ('import_certificate', asyncssh.import_certificate, KI)]
+    for tag, tname in ((0x30, 'sequence'), (0x31, 'set'), (0xa0, 'context-0')):
+        for depth in (10, 100, 900, 1100, 5000, 50000):
+            raw = nest(tag, depth)
+            forms = [('der', raw)]
+            if depth <= 5000:
+                for hdr in ('PRIVATE KEY', 'RSA PRIVATE KEY', 'PUBLIC KEY', 'CERTIFICATE'):
+                    forms.append(('pem-' + hdr.lower().replace(' ', '-'), ('-----BEGIN %s-----\n' % hdr).encode() + base64.encodebytes(raw) + ('-----END %s-----\n' % hdr).encode()))
+            for fname, data in forms:
+                for entry, fn, allowed in targets:
+                    if entry == 'der_decode' and fname != 'der':
+                        continue
+                    out = 'value'
+                    try:
+                        fn(data)
+                    except allowed:
+                        out = 'documented-error'
+                    except BaseException as exc:        # pylint: disable=broad-except
+                        out = type(exc).__name__
+                        acc.violation('parser:undocumented-error:%s:nested-%s' % (entry, tname), 'depth %d (%s, %d bytes): %r' % (depth, fname, len(data), exc)[:300],
+                                      {'kind': 'nesting'})
+                    acc.add(core.digest(('nesting', entry, tname, depth, fname, out)), transitions=1,
+                            sample={'nested': tname, 'depth': depth, 'given_to': entry, 'outcome': out} if depth == 5000 and fname == 'der' and entry == 'der_decode' and tname == 'sequence' else None)
+    return acc
+
+
+def sftp_version_worker(_job):
+    """the server's answer to FXP_INIT: every known extension with data that is empty, cut short, over-long or of
+    the wrong shape, alone and after a good one: starting the SFTP client works or raises SFTPError"""
+    import refsftp as RS
+    acc = core.Acc()
+    u32b = lambda n: n.to_bytes(4, 'big')
+    sb = lambda b: u32b(len(b)) + b
+    good = {b'vendor-id': sb(b'v') + sb(b'p') + sb(b'1') + (0).to_bytes(8, 'big'), b'newline': b'\n', b'versions': b'3,4,5,6',
+            b'supported': u32b(0) * 6 + u32b(0), b'supported2': u32b(0) * 6 + b'\0\0' + u32b(0) + u32b(0) + u32b(0),
+            b'acl-supported': u32b(0), b'limits@openssh.com': b'1', b'posix-rename@openssh.com': b'1', b'x-unknown@example.com': b'zz'}
+    cases = []
+    for name, g in good.items():
+        datas = {g, b'', b'\0', b'\xff' * 3, g[:-1], g + b'\0', u32b(0xffffffff) + g, u32b(5) + b'ab', g[:len(g) // 2]}
+        for d in sorted(datas):
+            cases.append([(name, d)])
+            cases.append([(b'newline', b'\n'), (name, d)])
+    for version in (3, 6):
+        for exts in cases:
+            loop = P.fresh(0)
+            loop.write_budget = 300
+            viol, out = [], 'pending'
+            try:
+                srv = RS.RefSFTP(loop, extensions=list(exts))
+                srv.version = version
+                start, conn = RS.start_client(loop, srv, version=version)
+                for _ in range(20):
+                    loop.quiesce()
+                    if start.done():
+                        break
+                    if srv.pending:
+                        srv.answer(0)
+                if not start.done():
+                    viol.append(('start-hangs', 'start_sftp_client never finished'))
+                    start.cancel()
+                elif start.exception() is not None:
+                    out = type(start.exception()).__name__
+                    if not isinstance(start.exception(), (asyncssh.SFTPError, asyncssh.Error)):
+                        viol.append(('undocumented-error', 'start_sftp_client raised %r' % (start.exception(),)))
+                else:
+                    out = 'started'
+                try:
+                    loop.quiesce()
+                except Livelock:
+                    pass
+                lexc = loop.unretrieved()
+                if lexc:
+                    viol.append(('loop-exception', repr(lexc[0].get('exception') or lexc[0].get('message'))[:200]))
+            except Livelock as exc:
+                viol.append(('livelock', str(exc)))
+            finally:
+                P.done(loop)
+            label = '%s=%s' % (exts[-1][0].decode(), exts[-1][1].hex()[:24])
+            acc.add(core.digest(('sftp-version', version, tuple(exts), out)), transitions=1)
+            for k, d in viol:
+                acc.violation('sftpclient:%s:version-extension:%s' % (k, exts[-1][0].decode()), '%s ; v%d extensions %r' % (d, version, exts),
+                              {'kind': 'sftp-version'})
+    return acc
+
+
 def run(tier, seed):
     n = len(corpus(tier))
     acc = core.pmap(run_item, core.rotate([(i, tier) for i in range(n)], seed))
@@ -516,6 +633,8 @@ def run(tier, seed):
     acc.merge(core.pmap(socks_worker, [sb[i::16] for i in range(16)]))
     acc.merge(core.pmap(agent_worker, [[i] for i in range(len(agent_calls()))]))
     acc.merge(core.pmap(sftp_hostile_worker, [[i] for i in range(len(sftp_calls()))]))
+    acc.merge(core.pmap(sftp_version_worker, [0]))
+    acc.merge(core.pmap(nesting_worker, [0]))
     return acc
 
 
@@ -523,6 +642,10 @@ def replay(r):
     acc = core.Acc()
     if r['kind'] == 'socks':
         return socks_worker([(bytes.fromhex(r['blob']), r['split'])])
+    if r['kind'] == 'nesting':
+        return nesting_worker(0)
+    if r['kind'] == 'sftp-version':
+        return sftp_version_worker(0)
     if r['kind'] == 'sftp-hostile':
         full = sftp_hostile_worker([r['call']])
         full.violations = [v for v in full.violations if v['replay'].get('label') == r['label']]
